@@ -15,7 +15,7 @@
 (* the run with status 1 (see [ex_link_occupant_fails]).                                              *)
 (* Proofs reuse the invariant [Inv] of Pipe/PlanExact.v.                                              *)
 From Coq Require Import Permutation Relations.
-From Tempren Require Import Base.Str Py.PathLib Py.PathLibProofs FS.Model FS.Lemmas FS.WfCheck Pipe.Pipeline Pipe.PlanExact.
+From Tempren Require Import Base.Str Py.PathLib Py.PathLibProofs FS.Model FS.Lemmas FS.WfCheck Pipe.Pipeline Pipe.DestParent Pipe.PlanExact.
 Open Scope N_scope.
 
 (* ====================== definitions ================================================================== *)
@@ -455,7 +455,7 @@ Proof.
             pose proof (OF _ _ _ _ Nk Nh O). lia. }
         destruct (Hpre _ Hp') as [Sk|K]; [cbn [skipped] in Sk; contradiction | contradiction]. }
       destruct CH as [_ FV]. destruct (FV f t Hin Hne) as [Hlen _].
-      destruct (containment_ok c Cv s plan W OK D f t rest _ Hin I Hfree Hlen) as [Ct [Pc Sc]]. rewrite Ct, Pc, Sc.
+      destruct (containment_ok c Cv s plan W OK D f t rest _ Hin I Hfree Hlen) as [Ct [Pc Sc]]. rewrite Ct, (dest_parent_test_with_name _ _ _ _ _ Hg' Sc), Pc, Sc.
       destruct (renamer_free c Cm Cd Cf Cv s plan W OK D f t rest w Hin I Hfree) as [w1 R]. rewrite R.
       apply (IH (pre ++ [(f, RText t)]) w1 _ ((f, RText t) :: D) Ep').
       * apply (renamer_step c Cm Cd Cf Cv s plan W OK D f t _ w w1 Hin I R).
@@ -514,7 +514,7 @@ Proof.
         assert (Hnl : forall i tg, lookup (w_fs w) (dst_key f t) <> Some (NLink i tg)).
         { intros i tg Z. rewrite L in Z. injection Z as Z. subst m.
           apply (NL _ _ I' Hin O i tg). cbn [fst]. apply In_lookup; [exact W | exact Hm]. }
-        destruct (containment_not_link D f t _ _ Hin I1 Hnl Hlen) as [Ct [Pc Sc]]. rewrite Ct, Pc, Sc.
+        destruct (containment_not_link D f t _ _ Hin I1 Hnl Hlen) as [Ct [Pc Sc]]. rewrite Ct, (dest_parent_test_with_name _ _ _ _ _ Hg' Sc), Pc, Sc.
         rewrite (renamer_taken D f t _ w m Hin I1 L). cbn [is_file_exists].
         change ((pf_dir f, pf_rel f, new_path f t) :: map pend blE) with (map pend ((f, RText t) :: blE)).
         apply (IH (pre ++ [(f, RText t)]) w _ D ((f, RText t) :: blE) Ep' I1).
@@ -528,7 +528,7 @@ Proof.
         -- intros b [<-|Hb]; [exact Hne | apply Mv, Hb].
       * (* free: renamed now *)
         assert (Hnl : forall i tg, lookup (w_fs w) (dst_key f t) <> Some (NLink i tg)) by (intros i tg Z; congruence).
-        destruct (containment_not_link D f t _ _ Hin I1 Hnl Hlen) as [Ct [Pc Sc]]. rewrite Ct, Pc, Sc.
+        destruct (containment_not_link D f t _ _ Hin I1 Hnl Hlen) as [Ct [Pc Sc]]. rewrite Ct, (dest_parent_test_with_name _ _ _ _ _ Hg' Sc), Pc, Sc.
         destruct (renamer_free c Cm Cd Cf Cv s plan W OK D f t _ w Hin I1 L) as [w1 R]. rewrite R.
         apply (IH (pre ++ [(f, RText t)]) w1 _ ((f, RText t) :: D) blE Ep'); [|exact Hbl' | exact St | exact Mv].
         apply (renamer_step c Cm Cd Cf Cv s plan W OK D f t _ w w1 Hin I1 R).
